@@ -794,6 +794,41 @@ pub fn decorate_design(rng: &mut Rng, d: &mut crate::e2e::design::Design, point:
     (point_at, wrote)
 }
 
+/// Composites whose summary limits peak in *different* glyphs: one with many points (one component of a 24-point
+/// polygon), one with many contours (three components of a 4-point box) and one that is deep (a chain of three),
+/// so that maxp's composite fields cannot be taken from any single glyph.
+fn add_maxp_spread(d: &mut crate::e2e::design::Design) {
+    use crate::e2e::design::{Comp, GlyphDef, Pt, PtType};
+    let line = |x: f64, y: f64| Pt { x, y, typ: PtType::Line };
+    let poly: Vec<Pt> = (0..24).map(|k| {
+        let (a, r) = (k as f64, if k % 2 == 0 { 300.0 } else { 200.0 });
+        // a 24-gon on integer coordinates (octant-wise, no trigonometry needed for distinct points)
+        line(400.0 + r - 10.0 * a * ((k % 3) as f64), 100.0 + 17.0 * a + if k > 12 { -9.0 * (a - 12.0) } else { 0.0 })
+    }).collect();
+    let boxc = vec![line(0.0, 0.0), line(100.0, 0.0), line(100.0, 100.0), line(0.0, 100.0)];
+    let c = |base: &str, dx: f64, dy: f64| Comp { base: base.to_string(), t: [1.0, 0.0, 0.0, 1.0, dx, dy] };
+    let new: Vec<(&str, GlyphDef)> = vec![
+        ("mxpoly", GlyphDef { advance: 800.0, contours: vec![poly], ..Default::default() }),
+        ("mxbox", GlyphDef { advance: 300.0, contours: vec![boxc], ..Default::default() }),
+        ("mxpolyref", GlyphDef { advance: 800.0, components: vec![c("mxpoly", 10.0, 0.0)], ..Default::default() }),
+        ("mxtriple", GlyphDef { advance: 500.0, components: vec![c("mxbox", 0.0, 0.0), c("mxbox", 150.0, 0.0), c("mxbox", 300.0, 0.0)], ..Default::default() }),
+        ("mxn1", GlyphDef { advance: 300.0, components: vec![c("mxbox", 5.0, 5.0)], ..Default::default() }),
+        ("mxn2", GlyphDef { advance: 300.0, components: vec![c("mxn1", 5.0, 5.0)], ..Default::default() }),
+        ("mxn3", GlyphDef { advance: 300.0, components: vec![c("mxn2", 5.0, 5.0)], ..Default::default() }),
+    ];
+    for m in d.masters.iter_mut() {
+        if m.sparse { continue; }
+        for (n, g) in &new {
+            let mut g = g.clone();
+            if let Some(h) = m.glyphs.values().next().and_then(|x| x.height) { g.height = Some(h); }
+            m.glyphs.insert(n.to_string(), g);
+        }
+    }
+    if let Some(order) = d.glyph_order.as_mut() {
+        for (n, _) in &new { order.push(n.to_string()); }
+    }
+}
+
 pub fn run_font(args: &Args) {
     let seed = args.seed;
     let captured = init_capture();
@@ -824,7 +859,9 @@ pub fn run_font(args: &Args) {
             let mut go = design::GenOpts::default();
             go.vertical = rng.chance(1, 3);
             go.metrics_vary = rng.chance(1, 2);
+            go.nested = rng.chance(1, 2);
             let mut d = design::gen_design(&mut rng, &go);
+            if rng.chance(1, 2) { add_maxp_spread(&mut d); }
             let (want_point, want_fea) = (rng.chance(1, 2), rng.chance(2, 3));
             let (point_at, varfea) = decorate_design(&mut rng, &mut d, want_point, want_fea);
             f.push(S::k1("pointaxis", S::opt(point_at.map(S::usize))));
